@@ -5,15 +5,16 @@ Import ListNotations.
 Open Scope Z_scope.
 
 (* ---- defining a lineage logs nothing ----------------------------------------------------------------------- *)
-Lemma define_all_from : forall stages lin log,
-  fold_left define stages (lin, log) = (lin ++ stages, log).
+Lemma define_all_from : forall stages lin log seen,
+  fold_left define stages (lin, log, seen) = (lin ++ stages, log, seen ++ repeat (length log) (length stages)).
 Proof.
-  induction stages as [|s r IH]; intros lin log; simpl.
-  - now rewrite app_nil_r.
-  - unfold define at 2; simpl. rewrite IH, <- app_assoc. reflexivity.
+  induction stages as [|s r IH]; intros lin log seen; simpl.
+  - now rewrite !app_nil_r.
+  - rewrite IH, <- !app_assoc. reflexivity.
 Qed.
 
-Lemma define_all_silent : forall stages, define_all stages = (stages, []).
+Lemma define_all_silent : forall stages,
+  define_all stages = (stages, [], repeat 0%nat (S (length stages))).
 Proof. intros stages. unfold define_all. now rewrite define_all_from. Qed.
 
 (* ---- traces --------------------------------------------------------------------------------------------------- *)
@@ -768,5 +769,5 @@ Lemma query_log_isEmpty' : forall stages parts, fst (run_query QIsEmpty stages p
 Proof. intros stages [|xs r]; reflexivity. Qed.
 
 Lemma program_spec : forall stages q parts,
-  run_program stages q parts = (0%nat, run_query q stages parts).
+  run_program stages q parts = (repeat 0%nat (S (length stages)), run_query q stages parts).
 Proof. intros. unfold run_program. rewrite define_all_silent. reflexivity. Qed.
